@@ -27,6 +27,7 @@ type c05Case struct {
 	Style   string  `json:"style"`
 	Deco    string  `json:"deco,omitempty"`   // table-name decorations, see plSpellX
 	Assign  string  `json:"assign,omitempty"` // lit | inc | two | incq
+	SVal    int     `json:"sval,omitempty"`   // assign=str: which string value is assigned
 	OrderBy bool    `json:"orderby,omitempty"`
 	Cond    *plCond `json:"cond,omitempty"`
 	Spell   string  `json:"spell,omitempty"` // keyassign: bare | backquote | upper | tbl | alias | db
@@ -64,6 +65,9 @@ func c05SQL(c *plCfg, cs *c05Case) string {
 			set = cols["cnt"] + " = 9"
 		case "inc", "incq":
 			set = cols["cnt"] + " = " + rhsCnt + " + 1"
+		case "str":
+			// a string value with backslashes (default sql_mode: written doubled in the literal)
+			set = cols["v"] + " = " + plStrLits[cs.SVal%len(plStrLits)].SQL + ", " + cols["cnt"] + " = 5"
 		default:
 			set = cols["other"] + " = 3, " + cols["cnt"] + " = " + rhsCnt + " + 2"
 		}
@@ -129,7 +133,7 @@ func c05Stores(c *plCfg) (*plStore, *plStore) {
 		for j := 0; j < 2; j++ {
 			rid++
 			other := plOthers[(ki+j)%3]
-			row := &plRow{Rid: rid, C: map[string]plVal{c.Key: k.V, "other": other, "cnt": plIntV(int64((ki + 2*j) % 4)), "v": plStrV(fmt.Sprintf("r%d", rid))}}
+			row := &plRow{Rid: rid, C: map[string]plVal{c.Key: k.V, "other": other, "cnt": plIntV(int64((ki + 2*j) % 4)), "v": plStrV(c05V(rid))}}
 			a := c.Addr(c.Table, k.Idx)
 			sh.T[a] = append(sh.T[a], row)
 			ref.T[refAddr] = append(ref.T[refAddr], row.clone())
@@ -137,6 +141,14 @@ func c05Stores(c *plCfg) (*plStore, *plStore) {
 	}
 	c05Base[c.ID], c05Ref[c.ID] = sh, ref
 	return sh, ref
+}
+
+// c05V is the string column of row rid: every third row holds one of the backslash values.
+func c05V(rid int) string {
+	if rid%3 == 0 {
+		return plStrVals[(rid/3)%len(plStrVals)]
+	}
+	return fmt.Sprintf("r%d", rid)
 }
 
 type c05Result struct {
@@ -565,6 +577,16 @@ func TestVerif_C05(t *testing.T) {
 		}
 	}
 
+	// (2a) string literals with backslashes in WHERE and SET, every layout
+	for _, id := range ids {
+		for i, l := range plStrLits {
+			eq := &plCond{Op: "cmp", Col: "v", Cmp: "=", Lits: []plLit{l}}
+			runOne(&c05Case{Cfg: id, Kind: "delete", Style: "bare", Cond: eq})
+			runOne(&c05Case{Cfg: id, Kind: "update", Style: "bare", Assign: "inc", Cond: &plCond{Op: "in", Col: "v", Lits: []plLit{l, plStrLits[(i+1)%len(plStrLits)]}}})
+			runOne(&c05Case{Cfg: id, Kind: "update", Style: "bare", Assign: "str", SVal: i, Cond: &plCond{Op: "cmp", Col: "other", Cmp: "=", Lits: []plLit{plOtherLits[0]}}})
+		}
+	}
+
 	// (2b) every spelling of the table reference with a fixed point condition
 	for i, id := range ids {
 		if kit.Tier() != "thorough" && i%5 != int(kit.Seed()%5) {
@@ -587,7 +609,7 @@ func TestVerif_C05(t *testing.T) {
 	// (3) random
 	r := kit.SubRand(kit.Seed(), "C05/random")
 	n := kit.N(2500, 150000)
-	assigns := []string{"lit", "inc", "inc", "two", "incq"}
+	assigns := []string{"lit", "inc", "inc", "two", "incq", "str", "str"}
 	for i := 0; i < n; i++ {
 		id := ids[r.Intn(len(ids))]
 		c, _ := plGetCfg(id, "")
@@ -596,9 +618,10 @@ func TestVerif_C05(t *testing.T) {
 			cs.Kind = "delete"
 		} else {
 			cs.Assign = assigns[r.Intn(len(assigns))]
+			cs.SVal = r.Intn(len(plStrLits))
 		}
 		if !r.Chance(1, 25) {
-			cs.Cond = plGenCond(r, c, r.Range(1, 3), []string{"other"})
+			cs.Cond = plGenCond(r, c, r.Range(1, 3), []string{"other", "v"})
 		}
 		runOne(cs)
 	}
